@@ -182,7 +182,7 @@ class DistanceConstraints(MutableMapping):
                 f"pair but had: {key} which cannot be valid (<0)"
             )
 
-        self._store[self._key_transform(key)] = Distance(value)
+        self._store[self._key_transform(key)] = Distance(value).to("Å")
 
     def copy(self) -> "DistanceConstraints":
         return deepcopy(self)
